@@ -221,6 +221,7 @@ struct setup_data {
 		)
 
 static void diskdump_cleanup(struct kdump_shared *shared);
+static void diskdump_attr_cleanup(struct attr_dict *dict);
 
 /** Convert a PFN to a page descriptor file offset.
  * @param pdmap  Page descriptor mapping.
@@ -1096,6 +1097,8 @@ open_common(kdump_ctx_t *ctx, void *hdr)
 	return ret;
 
  err_cleanup:
+	/* The memory pagemap override lives in the private data. */
+	diskdump_attr_cleanup(ctx->dict);
 	diskdump_cleanup(ctx->shared);
 	return ret;
 }
